@@ -464,6 +464,83 @@ def model_input(case):
             "stmts": [fstmt_js(st) for st in get_statements_in_ast(ast)]}
 
 
+def _strings(j, acc):
+    if isinstance(j, str):
+        acc.add(j)
+    elif isinstance(j, list):
+        for x in j:
+            _strings(x, acc)
+    elif isinstance(j, dict):
+        for k, x in j.items():
+            if k not in ("id", "deps"):         # statement ids are a name space of their own
+                _strings(x, acc)
+
+
+def canon_introduced(out, known, known_ids):
+    """the output with every INTRODUCED variable name / statement id (one that occurs nowhere in the input) replaced
+    by #v0, #v1, ... / #s0, #s1, ... in order of first occurrence: how the passes spell and number what they
+    introduce is not part of the property, only that it is new (which is what 'occurs nowhere in the input' says)"""
+    groups = out["out"]
+    nested = bool(groups) and isinstance(groups[0], list)
+    vmap, imap = {}, {}
+
+    def v(n):
+        return n if n in known else vmap.setdefault(n, f"#v{len(vmap)}")
+
+    def i(n):
+        return n if n in known_ids else imap.setdefault(n, f"#s{len(imap)}")
+
+    def walk(j):
+        if isinstance(j, list):
+            if len(j) == 2 and j[0] == "v" and isinstance(j[1], str):
+                return ["v", v(j[1])]
+            return [walk(x) for x in j]
+        return j
+
+    def stmt(s):
+        s = dict(s)
+        s["id"] = i(s["id"])
+        k = list(s["stmt"]["kind"])
+        cond = walk(s["stmt"]["cond"])
+        if k[0] == "assign":
+            k[4] = [[v(l[0]), walk(l[1]), walk(l[2])] for l in k[4]]
+            k[1], k[2], k[3] = v(k[1]), walk(k[2]), walk(k[3])
+        elif k[0] == "call":
+            k[3], k[4] = walk(k[3]), [[kk, walk(x)] for kk, x in k[4]]
+            k[1] = [v(x) for x in k[1]]
+        else:
+            k = [k[0]] + [walk(x) for x in k[1:]]
+        s["stmt"] = {"cond": cond, "kind": k}
+        return s
+
+    def deps(s):
+        return dict(s, deps=sorted(imap.get(d, d) for d in s["deps"]))
+    if nested:
+        res = [[stmt(s) for s in g] for g in groups]
+        res = [[deps(s) for s in g] for g in res]
+    else:
+        res = [deps(s) for s in [stmt(s) for s in groups]]
+    return dict(out, out=res)
+
+
+def normalise_pair(case, a, b):
+    if isinstance(a, dict) and isinstance(b, dict) and "out" in a and "out" in b and a != b:
+        known = set()
+        _strings(case["ast"], known)
+        known_ids = set()           # statement ids are a name space of their own
+        for f in leaves_of(case["ast"]):
+            known_ids.add(f["id"])
+            known_ids.update(f["deps"])
+        try:
+            ca, cb = canon_introduced(a, known, known_ids), canon_introduced(b, known, known_ids)
+        except (KeyError, IndexError, TypeError, ValueError):
+            return a, b
+        if ca == cb:
+            ctx.count("tie:introduced-names-spelled-or-numbered-differently")
+            return ca, cb
+    return a, b
+
+
 # ---------------------------------------------------------------- oracle
 
 class Calls:
